@@ -17,6 +17,7 @@ decisions are recorded and can be replayed.
 
 from __future__ import annotations
 
+import math
 import sys
 import threading
 
@@ -63,8 +64,10 @@ class ThreadSim:
             pool = others if (others and self.rng.random() < 0.75) else candidates
             j = pool[self.rng.randrange(len(pool))]
             lo, hi = self.quantum
-            # mostly short quanta, sometimes long ones (a thread that runs almost to completion)
-            q = self.rng.randint(lo, hi) if self.rng.random() < 0.85 else self.rng.randint(hi, hi * 20)
+            # log-uniform quanta between lo and 40*hi line events: every scale is sampled, from
+            # "switch on the very next line" to "run (almost) to completion" - a narrow window in
+            # one thread needs the OTHER thread to get far enough before the first one resumes
+            q = int(math.exp(self.rng.uniform(math.log(lo), math.log(hi * 40))))
         self.decisions.append([j, q])
         return j, q
 
